@@ -5,6 +5,7 @@ package flyt
 import (
 	"context"
 	"errors"
+	"time"
 )
 
 // C11 — cancelling a batch stops new items and never hangs or fakes success.
@@ -143,4 +144,42 @@ func VH_C11_preCancelled() {
 	for i := 0; i < len(res); i++ {
 		vAssert(res[i].IsError(), "unexecuted-item-carries-an-error")
 	}
+}
+
+// cancellation is cancellation, whatever kind of context carries it: a context WITH a (far) deadline
+// that is cancelled explicitly while an item sits in its retry wait stops that item — no retry attempt
+// starts at a later (virtual) instant than the cancellation
+func VH_C11_deadlineCtx() {
+	vUnwind(12)
+	w, d := vNondet[time.Duration]("w"), vNondet[time.Duration]("cancelAfter")
+	vAssume(w > 0 && w <= 1<<40 && d > 0 && d <= 1<<40)
+	ctx, cancel := context.WithTimeout(context.Background(), 1<<50)
+	defer cancel()
+	cancelled := false
+	var cancelAt time.Duration
+	attempts := [2]int{}
+	b := NewBatchNode().WithBatchConcurrency(2).WithMaxRetries(2).WithWait(w).
+		WithPrepFunc(func(ctx context.Context, s *SharedStore) ([]Result, error) { return bItems(2), nil }).
+		WithExecFunc(func(ctx context.Context, item Result) (Result, error) {
+			k := bIndex(item)
+			var err error
+			vMon(func() {
+				attempts[k]++
+				if attempts[k] > 1 {
+					vAssert(!(cancelled && cancelAt < vNow()), "no-new-retry-attempt-after-cancellation")
+					vCover("retry-attempt-observed")
+				}
+				if k == 0 && attempts[k] == 1 {
+					err = vNewErr() // item 0 fails once and goes into its retry wait
+				}
+			})
+			if k == 1 {
+				time.Sleep(d) // item 1 cancels the batch some time later
+				vMon(func() { cancelled, cancelAt = true, vNow() })
+				cancel()
+			}
+			return item, err
+		})
+	Run(ctx, b, NewSharedStore())
+	vCover("deadline-context-cancelled-explicitly")
 }
